@@ -129,6 +129,7 @@ def apply_call(o, c):
 
 
 _TURN = 0
+_MK = 0
 
 
 WS_CHARS = [" ", "\n", "\t", "\r\n", "  ", "\u00a0", "\u2003", "\x0c"]
@@ -138,7 +139,12 @@ def make_object(lc, seq, rng, allow_shuffle=True):
     """An object for a check to query: built directly from `seq`, from a decorated spelling of it (lower case, whitespace:
     normalisation is part of the API), or as the child returned by get_shuffled_sequence(frozen) of such an object (its
     sequence is then a rearrangement of `seq`).  Returns (object, its sequence, how)."""
-    r = rng.random()
+    # the ways of making an object take turns (every one of them occurs in every run, however few objects a check makes)
+    global _MK
+    how = ["direct", "shuffled", "decorated", "file", "direct", "seqobj", "decorated", "shuffled", "direct", "file"][_MK % 10]
+    _MK += 1
+    rng.random()
+    r = {"direct": 0.0, "seqobj": 0.5, "file": 0.55, "decorated": 0.7, "shuffled": 0.9}[how]
     if r < 0.45:
         return lc.SP(seq), seq, "direct"
     if r < 0.52:
@@ -164,6 +170,9 @@ def make_object(lc, seq, rng, allow_shuffle=True):
     if rng.random() < 0.5:
         common.call(parent.get_kappa)
     frozen = set(rng.sample(range(len(seq)), rng.randint(0, max(0, len(seq) // 3))))
+    charged = [i for i, ch in enumerate(seq) if ch in "KRDE"]
+    if charged:
+        frozen.add(rng.choice(charged))          # a frozen position that holds a charged residue
     out = common.call(parent.get_shuffled_sequence, frozen)
     if out[0] != "ok":
         return lc.SP(seq), seq, "direct"
